@@ -19,7 +19,11 @@ class TealLabel(TealComponent):
         return self.label
 
     def assemble(self) -> str:
-        comment = "\n// {}\n".format(self.comment) if self.comment is not None else ""
+        comment = ""
+        if self.comment is not None:
+            # every line of the comment text gets its own comment marker
+            lines = self.comment.splitlines() or [""]
+            comment = "\n" + "".join("// {}\n".format(line) for line in lines)
         return "{}{}:".format(comment, self.label.getLabel())
 
     def __repr__(self) -> str:
